@@ -373,7 +373,11 @@ pub fn start_argument_cases() -> (u64, Vec<String>) {
     let ev = [MaybenotEvent { event_type: MaybenotEventType::NormalSent, machine: 0 }];
     let mut buf: [MaybeUninit<MaybenotAction>; 4] = unsafe { MaybeUninit::uninit().assume_init() };
     let mut count = 77usize;
-    let cases: [(&str, u32); 4] = [
+    let cases: [(&str, u32); 8] = [
+        ("this = null, no events", unsafe { maybenot_on_events(std::ptr::null_mut(), ev.as_ptr(), 0, buf.as_mut_ptr(), &mut count) as u32 }),
+        ("events = null, num_events = 0", unsafe { maybenot_on_events(inst.0, std::ptr::null(), 0, buf.as_mut_ptr(), &mut count) as u32 }),
+        ("actions_out = null, no events", unsafe { maybenot_on_events(inst.0, ev.as_ptr(), 0, std::ptr::null_mut(), &mut count) as u32 }),
+        ("num_actions_out = null, no events", unsafe { maybenot_on_events(inst.0, ev.as_ptr(), 0, buf.as_mut_ptr(), std::ptr::null_mut()) as u32 }),
         ("this = null", unsafe { maybenot_on_events(std::ptr::null_mut(), ev.as_ptr(), 1, buf.as_mut_ptr(), &mut count) as u32 }),
         ("events = null", unsafe { maybenot_on_events(inst.0, std::ptr::null(), 1, buf.as_mut_ptr(), &mut count) as u32 }),
         ("actions_out = null", unsafe { maybenot_on_events(inst.0, ev.as_ptr(), 1, std::ptr::null_mut(), &mut count) as u32 }),
